@@ -466,6 +466,17 @@ func (x *Exec) run(st *State, b *ssa.BasicBlock, idx int, k retK) {
 		if len(st.trace) > 4000 {
 			limitf("path too long in %s", x.key)
 		}
+		if !fr.top {
+			// an inlined function: a loop is only allowed when its conditions fold to constants
+			// (e.g. a range over a sequence literal); count block visits to stop runaway unrolling
+			if fr.visits == nil {
+				fr.visits = map[*ssa.BasicBlock]int{}
+			}
+			fr.visits[b]++
+			if fr.visits[b] > 8 {
+				limitf("loop in inlined function %s does not have a concrete trip count", fr.fn.Name())
+			}
+		}
 		if fr.top {
 			if li := x.loops[b]; li != nil {
 				if fr.prev != nil && li.Blocks[fr.prev] {
@@ -592,6 +603,9 @@ func (x *Exec) run(st *State, b *ssa.BasicBlock, idx int, k retK) {
 			return
 		default:
 			x.step(st, in)
+			if st.dead {
+				return
+			}
 		}
 	}
 	limitf("block without terminator")
@@ -749,6 +763,16 @@ func (x *Exec) step(st *State, in ssa.Instruction) {
 		}
 		it := x.term(st, idx, false)
 		bt := x.term(st, base, false)
+		if base.Elems != nil {
+			if n, ok := parseIntLit(it); ok && n >= 0 && int(n) < len(base.Elems) {
+				// element of a sequence literal at a constant index: the element itself
+				// (keeps statically known function values)
+				e := base.Elems[n]
+				et := in.X.Type().Underlying().(*types.Slice).Elem()
+				set(in, Val{S: "@elemv", GT: et, Inner: &e})
+				return
+			}
+		}
 		st.check(x.key+"/safety/index", fmt.Sprintf("(and (<= 0 %s) (< %s (%s.len %s)))", it, it, base.S, bt), "index at "+x.pos(in.Pos()))
 		et := in.X.Type().Underlying().(*types.Slice).Elem()
 		set(in, Val{S: "@elem", T: fmt.Sprintf("(%s.nth %s %s)", base.S, bt, it), GT: et, A: &Addr{Ref: "@elem", T: et}, Inner: &Val{S: base.S, T: bt}, Elems: []Val{idx}})
@@ -770,7 +794,12 @@ func (x *Exec) step(st *State, in ssa.Instruction) {
 			limitf("store to a slice element at %s (slices are immutable sequences in this model)", x.pos(in.Pos()))
 		}
 		if addr.S == "@node" {
-			limitf("store to a field of an immutable node at %s", x.pos(in.Pos()))
+			// only records under construction in this function may be mutated; a store through any other
+			// node pointer must be unreachable (it is on paths where the pointer is nil)
+			st.check(x.key+"/subset/immutable-node-store", "false", "store to a field of a node that is not under construction here, at "+x.pos(in.Pos()))
+			x.finish(st, "immutable-node-store")
+			st.dead = true
+			return
 		}
 		if addr.A == nil {
 			limitf("store through untracked pointer at %s", x.pos(in.Pos()))
@@ -894,6 +923,10 @@ func (x *Exec) unop(st *State, in *ssa.UnOp, set func(ssa.Value, Val)) {
 	v := x.valOf(st, in.X)
 	switch in.Op {
 	case token.MUL:
+		if v.S == "@elemv" {
+			set(in, *v.Inner)
+			return
+		}
 		if v.S == "@elem" {
 			r := Val{S: x.U().sortOf(v.GT), T: v.T, GT: v.GT}
 			if tk := x.U().typeOKEager(r.T, r.GT); tk != "" {
@@ -950,6 +983,44 @@ func (x *Exec) binop(st *State, in *ssa.BinOp, set func(ssa.Value, Val)) {
 	s := a.S
 	if s == "" {
 		s = x.U().sortOf(in.X.Type())
+	}
+	// fold integer literals (keeps loops over sequence literals concrete)
+	if ca, ok1 := parseIntLit(at); ok1 {
+		if cb, ok2 := parseIntLit(bt); ok2 && s == "Int" {
+			lit := func(n int64) string {
+				if n < 0 {
+					return fmt.Sprintf("(- %d)", -n)
+				}
+				return fmt.Sprint(n)
+			}
+			bl := func(v bool) { set(in, Val{S: "Bool", T: fmt.Sprint(v)}) }
+			switch in.Op {
+			case token.ADD:
+				set(in, Val{S: "Int", T: lit(ca + cb)})
+				return
+			case token.SUB:
+				set(in, Val{S: "Int", T: lit(ca - cb)})
+				return
+			case token.EQL:
+				bl(ca == cb)
+				return
+			case token.NEQ:
+				bl(ca != cb)
+				return
+			case token.LSS:
+				bl(ca < cb)
+				return
+			case token.LEQ:
+				bl(ca <= cb)
+				return
+			case token.GTR:
+				bl(ca > cb)
+				return
+			case token.GEQ:
+				bl(ca >= cb)
+				return
+			}
+		}
 	}
 	r := func(sortName, f string) { set(in, Val{S: sortName, T: fmt.Sprintf(f, at, bt)}) }
 	switch in.Op {
@@ -1048,8 +1119,37 @@ func (x *Exec) slice(st *State, in *ssa.Slice, set func(ssa.Value, Val)) {
 		lo = x.term(st, x.valOf(st, in.Low), false)
 	}
 	hi := fmt.Sprintf("(%s.len %s)", s, bt)
+	if base.Elems != nil {
+		hi = fmt.Sprint(len(base.Elems))
+	}
 	if in.High != nil {
 		hi = x.term(st, x.valOf(st, in.High), false)
+	}
+	if base.Elems != nil {
+		// a sequence literal sliced at constant bounds stays a sequence literal
+		l, ok1 := parseIntLit(lo)
+		h, ok2 := parseIntLit(hi)
+		if ok1 && ok2 && 0 <= l && l <= h && int(h) <= len(base.Elems) {
+			sub := base.Elems[l:h]
+			t := s + ".empty"
+			var ets []string
+			for _, e := range sub {
+				et := x.term(st, e, true)
+				ets = append(ets, et)
+				t = fmt.Sprintf("(%s.snoc %s %s)", s, t, et)
+			}
+			if len(sub) > 0 {
+				c := st.fresh("seqlit", s)
+				st.assume(fmt.Sprintf("(= %s %s)", c, t))
+				st.assume(fmt.Sprintf("(= (%s.len %s) %d)", s, c, len(sub)))
+				for i, et := range ets {
+					st.assume(fmt.Sprintf("(= (%s.nth %s %d) %s)", s, c, i, et))
+				}
+				t = c
+			}
+			set(in, Val{S: s, T: t, Elems: append([]Val(nil), sub...)})
+			return
+		}
 	}
 	st.check(x.key+"/safety/slice", fmt.Sprintf("(and (<= 0 %s) (<= %s %s) (<= %s (%s.len %s)))", lo, lo, hi, hi, s, bt), "slice bounds at "+x.pos(in.Pos()))
 	if lo == "0" && in.High == nil {
